@@ -300,6 +300,9 @@ fn interp(ty: &Ty, n: &Node) -> V {
                         VK::Unit => {
                             if is_null(v) {
                                 V::Must(Pat::Var(i, vec![]))
+                            } else if v.tag.is_some() {
+                                // a tagged payload is outside the documented grammar (as for `Ty::Unit`)
+                                V::Free(Pat::Var(i, vec![]))
                             } else {
                                 V::MustErr
                             }
@@ -547,6 +550,29 @@ fn check_case(c: &Case) -> Outcome {
     let text = r.text;
     let verdict = interp(&c.ty, &c.doc);
     let got = serde_saphyr::with_deserializer_from_str(&text, |d| D(&c.ty).deserialize(d));
+    // the other single-document entry points carry their own "nothing is left over" checks: each
+    // must give the same outcome (same value, or an error as well)
+    let others: [(&str, Result<DV, serde_saphyr::Error>); 3] = ds::with_ty(&c.ty, || {
+        [
+            ("from_str", serde_saphyr::from_str::<ds::Dyn>(&text).map(|d| d.0)),
+            ("from_slice", serde_saphyr::from_slice::<ds::Dyn>(text.as_bytes()).map(|d| d.0)),
+            ("from_reader", serde_saphyr::from_reader::<_, ds::Dyn>(std::io::Cursor::new(text.as_bytes())).map(|d| d.0)),
+        ]
+    });
+    for (name, o) in &others {
+        match (&got, o) {
+            (Ok(a), Ok(b)) if a == b => {}
+            (Err(_), Err(_)) => {}
+            (a, b) => {
+                return Outcome::Fail(format!(
+                    "entry point {name} gives {} where with_deserializer_from_str gives {} (type {:?}, document {text:?})",
+                    match b { Ok(v) => format!("{v:?}"), Err(e) => format!("error: {}", e.without_snippet()) },
+                    match a { Ok(v) => format!("{v:?}"), Err(e) => format!("error: {}", e.without_snippet()) },
+                    c.ty
+                ))
+            }
+        }
+    }
     match (&verdict, &got) {
         (V::MustErr, Ok(v)) => Outcome::Fail(format!("shape mismatch accepted as {v:?} (type {:?}, document {text:?})", c.ty)),
         (V::MustErr, Err(_)) => Outcome::Pass,
